@@ -35,12 +35,13 @@ VARIABLES cfg,
           csz, cgc,              \* C: container size read for this iteration, gcount of its read
           asz, agc,              \* App (restore point trailer): same
           deleted,               \* ghost: ids deleted by the library
+          spur,                  \* spurious wake-ups injected so far (at most cfg.spur)
           act
 
 vars == <<cfg, uf, oq, uRun, cRun, objCount, uncSize, fileOut, rpo, hdr, cfOpen, pc, blk, wk,
-          nw, atmp, cur, opi, utmp, csz, cgc, asz, agc, deleted, act>>
+          nw, atmp, cur, opi, utmp, csz, cgc, asz, agc, deleted, spur, act>>
 View == <<cfg, uf, oq, uRun, cRun, objCount, uncSize, fileOut, rpo, hdr, cfOpen, pc, blk, wk,
-          nw, atmp, cur, opi, utmp, csz, cgc, asz, agc, deleted>>
+          nw, atmp, cur, opi, utmp, csz, cgc, asz, agc, deleted, spur>>
 
 Threads == {"A", "U", "C"}
 StatSize == 144
@@ -60,11 +61,12 @@ Init == /\ cfg \in Configs
         /\ nw = 0 /\ atmp = 0 /\ cur = 0 /\ opi = 0 /\ utmp = 0
         /\ csz = 0 /\ cgc = 0 /\ asz = 0 /\ agc = 0
         /\ deleted = {}
+        /\ spur = 0
         /\ act = [op |-> "init", arg |-> cfg.name]
 
 Ready(t, l) == pc[t] = l /\ blk[t] = ""
 Goto(t, l) == pc' = [pc EXCEPT ![t] = l]
-Step(t) == act' = [op |-> t, arg |-> 0] /\ UNCHANGED cfg
+Step(t) == act' = [op |-> t, arg |-> 0] /\ UNCHANGED <<cfg, spur>>
 Sync(self, cvs, selfcv) ==
   /\ blk' = [t \in Threads |-> IF t = self THEN selfcv ELSE IF blk[t] \in cvs THEN "" ELSE blk[t]]
   /\ wk' = (wk \ {self}) \cup {t \in Threads \ {self} : blk[t] \in cvs}
@@ -100,13 +102,14 @@ A_Write == /\ Ready("A", "write") /\ Step("A")
            /\ IF OQWritePred(oq)
                 THEN /\ oq' = OQWrite(oq, Obj(nw + 1).id)
                      /\ Sync("A", {"oqp"}, "")
-                     /\ nw' = nw + 1
-                     /\ Goto("A", IF cfg.post THEN "afterWrite" ELSE AfterWrite(nw + 1))
+                     /\ IF cfg.post THEN Goto("A", "afterWrite") /\ UNCHANGED nw      \* write() has not returned yet
+                                     ELSE Goto("A", AfterWrite(nw + 1)) /\ nw' = nw + 1
                 ELSE /\ Sync("A", {}, "oqg")
                      /\ UNCHANGED <<oq, pc, nw>>
            /\ UNCHANGED <<uf, Flags, Stats, Out, atmp, asz, agc, ULoc, CLoc>>
-A_AfterWrite == /\ Ready("A", "afterWrite") /\ Step("A") /\ Goto("A", AfterWrite(nw))
-                /\ UNCHANGED <<Mon, Flags, Stats, Out, ALoc, ULoc, CLoc>> /\ Quiet
+A_AfterWrite == /\ Ready("A", "afterWrite") /\ Step("A")
+                /\ nw' = nw + 1 /\ Goto("A", AfterWrite(nw + 1))
+                /\ UNCHANGED <<Mon, Flags, Stats, Out, atmp, asz, agc, ULoc, CLoc>> /\ Quiet
 (* close(), write mode: declare the end of the queue, join U then C *)
 A_Tellp == /\ Ready("A", "tellp") /\ Step("A")
            /\ atmp' = oq.p /\ Goto("A", "setend")
@@ -264,7 +267,15 @@ C_ClrBad == /\ Ready("C", "clrbad") /\ Step("C")
 
 CNext == C_Start \/ C_Load \/ C_Sz1 \/ C_Sz2 \/ C_Rd \/ C_Gc \/ C_Drop \/ C_GoodChk \/ C_ClrBad
 
-Next == ANext \/ UNext \/ CNext
+(* a condition variable may wake a waiter without any notify; the waiter re-evaluates its predicate *)
+Spurious == \E t \in Threads :
+              /\ spur < cfg.spur /\ blk[t] # ""
+              /\ blk' = [blk EXCEPT ![t] = ""] /\ wk' = wk \cup {t}
+              /\ spur' = spur + 1
+              /\ act' = [op |-> "spur", arg |-> t]
+              /\ UNCHANGED <<cfg, uf, oq, uRun, cRun, objCount, uncSize, fileOut, rpo, hdr, cfOpen, pc, nw, atmp, cur, opi, utmp, csz, cgc, asz, agc, deleted>>
+
+Next == ANext \/ UNext \/ CNext \/ Spurious
 Spec == Init /\ [][Next]_vars
 FairSpec == Spec /\ WF_vars(ANext) /\ WF_vars(UNext) /\ WF_vars(CNext)
 
